@@ -196,6 +196,23 @@ def apply_history(path: str, hist: Sequence[Tuple], res: Optional[Result] = None
             stores[ev[1]] = SQLiteStore.make_store(path)
         elif ev[0] == "open":
             stores.append(SQLiteStore.make_store(path))
+        if res is not None:
+            # every open connection is queried after every event (a connection's view must not lag behind commits made
+            # through other connections): module listing + one unfiltered query per module
+            want_mods = sorted({r[0] for r in model})
+            for ci, st in enumerate(stores):
+                res.transitions += 1
+                try:
+                    got_mods = sorted(st.list_modules())
+                    if got_mods != want_mods:
+                        res.violate(Violation(ID, "list_modules", "stale-view-on-other-connection", dict(case or {}, conn=ci), f"after {list(hist[: hist.index(ev) + 1])}: connection {ci} lists {got_mods}, committed rows have {want_mods}"))
+                    for m in want_mods:
+                        n_got = len(st.filter(m, None, 1000))
+                        n_want = len({r for r in model if r[0] == m})
+                        if n_got != n_want:
+                            res.violate(Violation(ID, "count", "stale-view-on-other-connection", dict(case or {}, conn=ci), f"connection {ci} sees {n_got} rows of {m}, {n_want} are committed"))
+                except Exception as e:  # noqa: BLE001
+                    res.violate(Violation(ID, "exception", "probe", dict(case or {}, conn=ci), f"probe raised {e!r}"))
     return stores, model
 
 
@@ -231,7 +248,7 @@ def explore_histories(ctx: Ctx, depth: int) -> Result:
             for hist, expand in chunk:
                 case = {"part": "H", "history": [list(e) for e in hist]}
                 try:
-                    stores, model = apply_history(path, hist)
+                    stores, model = apply_history(path, hist, res, case)
                 except Exception as e:  # noqa: BLE001
                     res.violate(Violation(ID, "exception", "history", case, f"history raised {e!r}"))
                     continue
@@ -611,11 +628,17 @@ def explore_faults(ctx: Ctx) -> Result:
             else:
                 if raw != post:
                     res.violate(Violation(ID, "atomicity", "add-returned-but-batch-missing", case, f"add returned normally (abort at {k}) but table {sorted(raw.items(), key=repr)} != pre+batch"))
-            # still usable on the same connection
+            # still usable on the same connection, and the follow-up operations do not resurrect the aborted batch
             try:
+                st.filter("m", None, 10)
+                st.list_modules()
                 st.add([mktrace(("m2", "after", "int"))])
                 if len(st.filter("m2", "after", 5)) != 1:
                     res.violate(Violation(ID, "recovery", "store-unusable-after-abort", case, "add/filter after abort failed"))
+                raw2 = indep_rows(path)
+                want2 = raw + collections.Counter([row_of(("m2", "after", "int"))])
+                if raw2 != want2:
+                    res.violate(Violation(ID, "atomicity", "aborted-batch-committed-later", case, f"after an add aborted at step {k} the next operations on the same connection changed the table to {sorted(raw2.items(), key=repr)}, expected {sorted(want2.items(), key=repr)}"))
             except Exception as e:  # noqa: BLE001
                 res.violate(Violation(ID, "recovery", "store-unusable-after-abort", case, f"store raised {e!r} after abort"))
             st.conn.close()
@@ -654,7 +677,7 @@ def replay(case: Dict[str, Any], ctx: Ctx) -> List[Violation]:
     part = case["part"]
     if part == "H":
         hist = [tuple(e) for e in case["history"]]
-        stores, model = apply_history(path, hist)
+        stores, model = apply_history(path, hist, res, {"part": "H", "history": case["history"]})
         raw = indep_rows(path)
         if raw != model:
             res.violate(Violation(ID, "content", "table-differs-from-model", case, "table differs"))
@@ -686,6 +709,7 @@ def replay(case: Dict[str, Any], ctx: Ctx) -> List[Violation]:
 
 
 def explore_faults_one(ctx: Ctx, path: str, pre, b, k) -> Result:
+    """One abort point, same judgement as explore_faults (used by --replay)."""
     res = Result()
     stores, pre_model = apply_history(path, [("add", 0, x) for x in pre])
     st = stores[0]
@@ -709,4 +733,14 @@ def explore_faults_one(ctx: Ctx, path: str, pre, b, k) -> Result:
         res.violate(Violation(ID, "atomicity", "failed-add-changed-state", case, "changed"))
     if raised is None and raw != pre_model + collections.Counter(batch_rows):
         res.violate(Violation(ID, "atomicity", "add-returned-but-batch-missing", case, "missing"))
+    try:
+        st.filter("m", None, 10)
+        st.list_modules()
+        st.add([mktrace(("m2", "after", "int"))])
+        raw2 = indep_rows(path)
+        if raw2 != raw + collections.Counter([row_of(("m2", "after", "int"))]):
+            res.violate(Violation(ID, "atomicity", "aborted-batch-committed-later", case, f"follow-up operations changed the table to {sorted(raw2.items(), key=repr)}"))
+    except Exception as e:  # noqa: BLE001
+        res.violate(Violation(ID, "recovery", "store-unusable-after-abort", case, f"store raised {e!r} after abort"))
+    st.conn.close()
     return res
